@@ -108,6 +108,22 @@ var defs = map[string]map[string]fieldDef{
 		"resolver":                        {"", "", nil},
 		"disableNameResolutionForIPRules": {false, false, nil},
 	},
+	// TLS options of HTTP proxy servers / clients in their "not configured" representations
+	"httpsrv": {
+		"certList":                   {"", "", nil},
+		"clientCAs":                  {"", "", nil},
+		"enableTLS":                  {false, false, nil},
+		"requireAndVerifyClientCert": {false, false, nil},
+	},
+	"httpcli": {
+		"certList":   {"", "", nil},
+		"rootCAs":    {"", "", nil},
+		"serverName": {"", "", nil}, // "If empty, it is inferred from the address."
+		"useTLS":     {false, false, nil},
+	},
+	"root": {
+		"certs": {map[string]any{}, map[string]any{"certLists": []any{}, "x509CertPools": []any{}}, nil},
+	},
 	"api": {
 		"debugPprof":      {false, false, []any{true}},
 		"staticPath":      {"", "", nil},
@@ -180,6 +196,9 @@ type srv struct {
 	f           fields
 	upTCP       string // upstream client name per network ("" = none routed)
 	upUDP       string
+	tls         *srvTLS // http: explicitly set TLS options
+	hf          fields  // http: TLS options in a default-equivalent representation
+	httpEmpty   bool    // http: write an empty "http" object
 }
 
 func (s *srv) is2022() bool { return strings.HasPrefix(s.proto, "2022-") }
@@ -207,6 +226,8 @@ type cli struct {
 	reqPrefix   []byte
 	respPrefix  []byte
 	f           fields
+	tls         *cliTLS // http: explicitly set TLS options
+	hf          fields  // http: TLS options in a default-equivalent representation
 }
 
 type sel struct {
@@ -263,6 +284,9 @@ type world struct {
 	files       map[string]string
 	nports      int
 	lenient     []string // reasons why both acceptance and refusal are within the statement
+	certs       *certsCfg
+	legacyOnly  bool // every server is written with the deprecated single-listener fields only
+	rootF       fields // "certs" in a default-equivalent representation (worlds without certificates)
 }
 
 // ---- emission
@@ -372,14 +396,12 @@ func (s *srv) emit(override int, legacy bool) map[string]any {
 			o["tunnelUDPTargetOnly"] = s.targetOnly.Val
 		}
 	}
-	if s.authUser != "" {
+	if s.authUser != "" && s.proto == "socks5" {
 		users := []any{map[string]any{"username": s.authUser, "password": s.authPass}}
-		switch s.proto {
-		case "socks5":
-			o["socks5"] = map[string]any{"users": users, "enableUserPassAuth": true}
-		case "http":
-			o["http"] = map[string]any{"users": users, "enableBasicAuth": true}
-		}
+		o["socks5"] = map[string]any{"users": users, "enableUserPassAuth": true}
+	}
+	if s.proto == "http" {
+		s.emitHTTP(o, override)
 	}
 	if len(s.reqPrefix) > 0 {
 		o["unsafeRequestStreamPrefix"] = s.reqPrefix
@@ -447,13 +469,11 @@ func (c *cli) emit(w *world, override int) map[string]any {
 		}
 		o["iPSKs"] = a
 	}
-	if c.authUser != "" {
-		switch c.proto {
-		case "socks5":
-			o["socks5"] = map[string]any{"username": c.authUser, "password": c.authPass, "enableUserPassAuth": true}
-		case "http":
-			o["http"] = map[string]any{"username": c.authUser, "password": c.authPass, "useBasicAuth": true}
-		}
+	if c.authUser != "" && c.proto == "socks5" {
+		o["socks5"] = map[string]any{"username": c.authUser, "password": c.authPass, "enableUserPassAuth": true}
+	}
+	if c.proto == "http" {
+		c.emitHTTP(o, override)
 	}
 	if len(c.reqPrefix) > 0 {
 		o["unsafeRequestStreamPrefix"] = c.reqPrefix
@@ -585,6 +605,11 @@ func (w *world) emit(override int, flipLegacy bool) string {
 		}
 		w.api.f.emitInto("api", o, override)
 		root["api"] = o
+	}
+	if w.certs != nil {
+		root["certs"] = w.certs.emit()
+	} else {
+		w.rootF.emitInto("root", root, override)
 	}
 	b, err := json.MarshalIndent(root, "", " ")
 	if err != nil {
@@ -724,6 +749,9 @@ func (w *world) validate() (vs []violation) {
 			}
 		}
 	}
+
+	// certificate store: names unique, references exist, files are what they are referenced as
+	w.validateTLS(add)
 
 	// names unique; references exist
 	tcp, udp, dupClient, _ := w.clientMaps()
